@@ -1,11 +1,13 @@
 use crate::Cfg;
 use crate::out::Out;
 
+pub mod exec;
 pub mod inset;
 
 pub fn run(stream: &str, cfg: Cfg, out: &mut Out) -> bool {
     match stream {
         "inset" => inset::run(cfg, out),
+        s if s.starts_with("exec-") => exec::run(&s[5..], cfg, out),
         _ => return false,
     }
     true
